@@ -122,13 +122,15 @@ def matchLoop (q : Query) : List Rule → Nat → Option (Nat × Bytes) → Matc
 
 def matchRules (rs : List Rule) (q : Query) : MatchRes := matchLoop q rs 0 none
 
-/-- `util.DropPort` (ip.go:9-30). `[` without `]`: `ipport[1:-1]` panics. -/
+/-- `util.DropPort` (ip.go:9-33). `[` without `]`: the input is returned unchanged (before the
+    fix for finding C05-b the slice `ipport[1:-1]` panicked there). No panic site is left; the
+    result type stays `Res` for the callers that thread it. -/
 def dropPort (ipport : Bytes) : Res Bytes :=
   match ipport with
   | [] => .ok []
   | 91 :: _ =>   -- '['
     match lastIndex b!"]" ipport with
-    | none => .panic "DropPort: slice bounds out of range [1:-1]"
+    | none => .ok ipport
     | some cb => .ok ((ipport.take cb).drop 1)      -- cb ≥ 1 cannot hold cb = 0 (byte 0 is '[')
   | 58 :: _ => .ok ipport   -- ':'
   | _ =>
